@@ -22,6 +22,6 @@ if [ "${SKIP_SUITE:-0}" != "1" ]; then
 fi
 for c in "$@"; do
   echo "== ./check $c --tier ${TIER:-quick}"
-  PYTHONPATH=$WT/src ./check "$c" --tier "${TIER:-quick}" 2>&1 | grep -E "^(VIOLATION|OK|KNOWN-FINDING|MACHINERY|  clause)" | cut -c1-400
+  VERIF_NO_EVIDENCE=1 PYTHONPATH=$WT/src ./check "$c" --tier "${TIER:-quick}" 2>&1 | grep -E "^(VIOLATION|OK|KNOWN-FINDING|MACHINERY|  clause)" | cut -c1-400
   echo "exit=${PIPESTATUS[0]}"
 done
